@@ -40,11 +40,17 @@ struct Case {
     keepalive_everywhere: bool,
 }
 
-const CUT_KINDS: [&str; 4] = ["eof", "read-error", "write-error", "silence"];
+const CUT_KINDS: [&str; 5] = ["eof", "read-error", "write-error", "silence", "silence-after-keepalive"];
+/// the driver itself gives the connection up: more than 1024 stream ids orphaned for longer than a second
+const ORPHAN_OVERFLOW: &str = "orphan-overflow";
+const ORPHANS: usize = 1030;
 const BAD_KINDS: [&str; 8] = ["garbage-header", "version-3", "client-direction", "unknown-opcode", "unsolicited-stream", "duplicate-response", "negative-stream", "event-stream"];
 
 fn is_cut_kind(k: &str) -> bool {
     CUT_KINDS.contains(&k)
+}
+fn is_silence(k: &str) -> bool {
+    k == "silence" || k == "silence-after-keepalive"
 }
 fn breaks_connection(k: &str) -> bool {
     !matches!(k, "negative-stream" | "event-stream")
@@ -83,7 +89,7 @@ struct Run {
 fn run_case(case: &Case, ch: &mut Chooser) -> (Result<(), String>, Run) {
     vasync::run(|| async move {
         let mut run = Run::default();
-        let with_keepalive = case.kind == "silence" || case.keepalive_everywhere;
+        let with_keepalive = is_silence(&case.kind) || case.keepalive_everywhere;
         let cfg = hook::RouterCfg {
             write_coalescing_delay: coalescing_of(&case.coalescing),
             keepalive_interval: if with_keepalive { Some(Duration::from_millis(KEEPALIVE_INTERVAL_MS)) } else { None },
@@ -128,7 +134,42 @@ async fn drive(case: &Case, ch: &mut Chooser, w: &mut World, run: &mut Run) -> R
         frames.push((c, w.response_frame(&h).encode()));
     }
     let breaking = breaks_connection(&case.kind);
-    if is_cut_kind(&case.kind) {
+    if case.kind == ORPHAN_OVERFLOW {
+        // ORPHANS further requests are written and then abandoned by their callers; the peer never answers them
+        let first = w.callers.len();
+        for k in 0..ORPHANS {
+            w.start_caller(caller_spec(10 + k));
+        }
+        w.quiesce_default(20 * ORPHANS).await?;
+        w.ingest()?;
+        if w.held.len() != case.n + ORPHANS {
+            return Err(format!("harness|peer holds {} requests, expected {}", w.held.len(), case.n + ORPHANS));
+        }
+        for i in first..first + ORPHANS {
+            w.cancel_caller(i);
+        }
+        w.quiesce_default(20 * ORPHANS).await?;
+        // the peer answers the chosen subset completely
+        let mut bytes = Vec::new();
+        for (c, b) in &frames {
+            bytes.extend_from_slice(b);
+            let p = w.held.iter().position(|h| h.caller == Some(*c)).unwrap();
+            w.callers[*c].answer_started = true;
+            w.mark_answered(p);
+        }
+        run.mixed = !frames.is_empty();
+        run.cut_class = "between-frames";
+        if !bytes.is_empty() {
+            w.deliver(&bytes, "answers to the chosen subset");
+        }
+        w.quiesce(ch, 400).await?;
+        // the orphans grow old (threshold 1 s); the orphaner's next 1 s tick must give the connection up
+        for _ in 0..3 {
+            vasync::advance(Duration::from_millis(700)).await;
+            w.log("time +700ms".into());
+            w.quiesce(ch, 400).await?;
+        }
+    } else if is_cut_kind(&case.kind) {
         let all: Vec<u8> = frames.iter().flat_map(|(_, b)| b.iter().copied()).collect();
         let cut = case.cut.min(all.len());
         let mut pos = 0;
@@ -153,7 +194,7 @@ async fn drive(case: &Case, ch: &mut Chooser, w: &mut World, run: &mut Run) -> R
         if cut > 0 {
             w.deliver(&all[..cut], &format!("responses up to the cut at offset {cut} of {}", all.len()));
         }
-        if case.kind != "silence" {
+        if !is_silence(&case.kind) {
             // default: the router sees the bytes first and the fault afterwards; deviation: both at once
             let at_once = ch.choose("fault-timing", 2) == 1;
             if !at_once {
@@ -196,12 +237,12 @@ async fn drive(case: &Case, ch: &mut Chooser, w: &mut World, run: &mut Run) -> R
         };
         bytes.extend_from_slice(&bad);
         for (c, b) in &frames[k..] {
+            // the peer does write these completely; a driver that broke the connection at the bad frame never reads
+            // them (its callers then hold errors), one that reads on is caught by the error-receiver / hang oracle
             bytes.extend_from_slice(b);
             w.callers[*c].answer_started = true;
-            if !breaking {
-                let p = w.held.iter().position(|h| h.caller == Some(*c)).unwrap();
-                w.mark_answered(p);
-            }
+            let p = w.held.iter().position(|h| h.caller == Some(*c)).unwrap();
+            w.mark_answered(p);
         }
         w.deliver(&bytes, &format!("{k} whole frames, then {}, then {} more frames", case.kind, frames.len() - k));
     }
@@ -210,7 +251,7 @@ async fn drive(case: &Case, ch: &mut Chooser, w: &mut World, run: &mut Run) -> R
     }
     w.quiesce(ch, 600).await?;
     w.ingest()?;
-    if case.coalescing == "1ms" && case.kind != "silence" {
+    if case.coalescing == "1ms" && !is_silence(&case.kind) {
         // a late request's write (and with it a write error) waits for the coalescing sleep: that is a
         // delay the configuration asks for, not a hang
         for _ in 0..3 {
@@ -243,9 +284,10 @@ async fn drive(case: &Case, ch: &mut Chooser, w: &mut World, run: &mut Run) -> R
                 return Err("harness|peer keeps holding requests".into());
             }
         }
-    } else if case.kind == "silence" {
+    } else if is_silence(&case.kind) {
         // nothing happens until the keep-alive machinery notices: advance virtual time in quanta
-        let horizon = KEEPALIVE_INTERVAL_MS + KEEPALIVE_TIMEOUT_MS + 2 * QUANTUM_MS;
+        let mut answer_keepalives = if case.kind == "silence-after-keepalive" { 1 } else { 0 };
+        let horizon = silence_horizon_ms(&case.kind);
         let mut elapsed = 0;
         while elapsed < horizon {
             vasync::advance(Duration::from_millis(QUANTUM_MS)).await;
@@ -253,6 +295,20 @@ async fn drive(case: &Case, ch: &mut Chooser, w: &mut World, run: &mut Run) -> R
             w.log(format!("time +{QUANTUM_MS}ms (t={elapsed}ms)"));
             w.quiesce(ch, 400).await?;
             w.ingest()?;
+            if answer_keepalives > 0 {
+                if let Some(pos) = w.held.iter().position(|h| h.caller.is_none()) {
+                    // the peer still answers this one keep-alive (and nothing else), then falls silent for good
+                    answer_keepalives -= 1;
+                    let f = w.response_frame(&w.held[pos].clone()).encode();
+                    w.mark_answered(pos);
+                    if partial_frame_pending(w) {
+                        // a response frame is half-written: the keep-alive answer cannot be put on the wire before its rest
+                    } else {
+                        w.deliver(&f, "answer to the first keep-alive");
+                        w.quiesce(ch, 400).await?;
+                    }
+                }
+            }
             w.poll_error_receiver()?;
         }
     }
@@ -260,8 +316,13 @@ async fn drive(case: &Case, ch: &mut Chooser, w: &mut World, run: &mut Run) -> R
 
     // ---- oracle
     let mut sig = Vec::new();
+    let mut sig_cancelled = 0usize;
     let mut pending = Vec::new();
     for i in 0..w.callers.len() {
+        if w.callers[i].cancelled {
+            sig_cancelled += 1;
+            continue;
+        }
         let out = w.callers[i].out.borrow_mut().take();
         match out {
             None => {
@@ -283,7 +344,7 @@ async fn drive(case: &Case, ch: &mut Chooser, w: &mut World, run: &mut Run) -> R
         }
     }
     let err_class = w.error_seen.as_ref().map(|e| classify_error(e)).unwrap_or_else(|| "none".into());
-    run.signature = format!("{}|router_done={}|error={}", sig.join(","), w.router_done(), err_class);
+    run.signature = format!("{}|abandoned={}|router_done={}|error={}", sig.join(","), sig_cancelled, w.router_done(), err_class);
     if !pending.is_empty() {
         // does it at least complete later? (only to make the report more useful; it is a violation either way)
         let before = pending.len();
@@ -294,7 +355,7 @@ async fn drive(case: &Case, ch: &mut Chooser, w: &mut World, run: &mut Run) -> R
         let still: Vec<usize> = pending.iter().copied().filter(|&i| w.callers[i].out.borrow().is_none()).collect();
         return Err(format!(
             "hang|after the fault and polling every task to quiescence{} {} caller(s) are still pending: {:?} (peer had completely answered: {:?}); after 3 more seconds of virtual time {} of them are still pending; error receiver: {}",
-            if case.kind == "silence" { format!(" and {}ms of virtual time (interval {KEEPALIVE_INTERVAL_MS} + timeout {KEEPALIVE_TIMEOUT_MS})", KEEPALIVE_INTERVAL_MS + KEEPALIVE_TIMEOUT_MS + 2 * QUANTUM_MS) } else { String::new() },
+            if is_silence(&case.kind) { format!(" and {}ms of virtual time (interval {KEEPALIVE_INTERVAL_MS} + timeout {KEEPALIVE_TIMEOUT_MS})", silence_horizon_ms(&case.kind)) } else { String::new() },
             before,
             pending,
             pending.iter().map(|&i| w.callers[i].answered_fully).collect::<Vec<_>>(),
@@ -311,13 +372,23 @@ async fn drive(case: &Case, ch: &mut Chooser, w: &mut World, run: &mut Run) -> R
         }
         // callers the peer never completely answered must hold an error (judge_completed already rejected Ok for them)
     } else {
-        for i in 0..w.callers.len() {
-            if sig[i] != "ok" {
-                return Err(format!("spurious-failure|the connection did not break, the peer answered caller{i} completely, yet it holds {}", sig[i]));
+        for (i, s) in sig.iter().enumerate() {
+            if s != "ok" {
+                return Err(format!("spurious-failure|the connection did not break, the peer answered every request completely, yet live caller #{i} holds {s}"));
             }
         }
     }
     Ok(())
+}
+
+fn silence_horizon_ms(kind: &str) -> u64 {
+    let once = KEEPALIVE_INTERVAL_MS + KEEPALIVE_TIMEOUT_MS;
+    if kind == "silence-after-keepalive" { 2 * once + 2 * QUANTUM_MS } else { once + 2 * QUANTUM_MS }
+}
+
+/// the cut left a response frame half-written on the wire
+fn partial_frame_pending(w: &World) -> bool {
+    w.callers.iter().any(|c| c.answer_started && !c.answered_fully)
 }
 
 fn classify_error(e: &str) -> String {
@@ -365,12 +436,17 @@ fn cases(thorough: bool) -> Vec<Case> {
                             let chunks: Vec<usize> = vec![0, 1];
                             for read_chunk in chunks {
                                 v.push(Case { n, answer: answer.clone(), kind: kind.to_string(), cut, late, coalescing: co.to_string(), read_chunk, keepalive_everywhere: false });
-                                if thorough && kind != "silence" && read_chunk == 0 {
+                                if thorough && !is_silence(kind) && read_chunk == 0 {
                                     // the same fault with the keep-aliver armed (its select! and timers are then part of the joined router)
                                     v.push(Case { n, answer: answer.clone(), kind: kind.to_string(), cut, late, coalescing: co.to_string(), read_chunk, keepalive_everywhere: true });
                                 }
                             }
                         }
+                    }
+                }
+                if co == "yield" {
+                    for late in [false, true] {
+                        v.push(Case { n, answer: answer.clone(), kind: ORPHAN_OVERFLOW.to_string(), cut: 0, late, coalescing: co.to_string(), read_chunk: 0, keepalive_everywhere: false });
                     }
                 }
                 for kind in BAD_KINDS {
@@ -412,7 +488,7 @@ fn main() {
     let thorough = r.tier().is_thorough();
     let forced_bound: Option<u32> = r.args.extra_value("--bound").and_then(|s| s.parse().ok());
     // quick: bound 2 for n<=2 and bound 1 for n=3; thorough: bound 3 throughout
-    let bound_for = |c: &Case| -> u32 { forced_bound.unwrap_or(if thorough { 3 } else if c.n <= 2 { 2 } else { 1 }) };
+    let bound_for = |c: &Case| -> u32 { if c.kind == ORPHAN_OVERFLOW { return if thorough { 1 } else { 0 }; } forced_bound.unwrap_or(if thorough { 3 } else if c.n <= 2 { 2 } else { 1 }) };
     let bound = forced_bound.unwrap_or(if thorough { 3 } else { 1 });
     let audit_every: u64 = if thorough { 16 } else { 4 };
     let all = cases(thorough);
@@ -496,7 +572,7 @@ fn main() {
     for c in all.iter().filter(|c| c.n == 3 && c.answer.len() == 2).take(2) {
         r.sample(c.to_json(&[]));
     }
-    r.set_rule(&format!("E-ASYNC fault enumeration on the real Connection::router: n=1..3 requests in flight x ordered subsets of answered requests ({}) x EVERY cut offset 0..=len of the response byte stream x {{eof, read-error, write-error(+a later request), silence with keep-alive {KEEPALIVE_INTERVAL_MS}/{KEEPALIVE_TIMEOUT_MS}ms and virtual time advanced past both}} and, after every whole number of frames, x {{garbage header, version 3, client-direction bit, unknown opcode, frame on a stream nobody waits on, second answer on an answered stream, negative stream, event frame}}; x a late request after the fault; every case explored by E-DFS over task scheduling and fault timing (fault together with / after the bytes) up to deviation bound {bound} (n=3) / {} (n<=2). evaluations = executions; distinct_nontrivial = distinct cases in which at the fault some request was completely or partially answered while another (or the same) was still owed. replays for the determinism audit: 1 in {audit_every} executions, full observation trace compared.", "all 1+2+5+16 of them; write coalescing yield/off (thorough: +1ms, + keep-aliver armed during the other faults)", if thorough { bound } else { bound + 1 }));
+    r.set_rule(&format!("E-ASYNC fault enumeration on the real Connection::router: n=1..3 requests in flight x ordered subsets of answered requests ({}) x EVERY cut offset 0..=len of the response byte stream x {{eof, read-error, write-error(+a later request), silence with keep-alive {KEEPALIVE_INTERVAL_MS}/{KEEPALIVE_TIMEOUT_MS}ms and virtual time advanced past both, silence after one answered keep-alive}} and, after every whole number of frames, x {{garbage header, version 3, client-direction bit, unknown opcode, frame on a stream nobody waits on, second answer on an answered stream, negative stream, event frame}}; plus the driver's own give-up (1030 abandoned requests unanswered for over a second) per answered subset; x a late request after the fault; every case explored by E-DFS over task scheduling and fault timing (fault together with / after the bytes) up to deviation bound {bound} (n=3) / {} (n<=2). evaluations = executions; distinct_nontrivial = distinct cases in which at the fault some request was completely or partially answered while another (or the same) was still owed. replays for the determinism audit: 1 in {audit_every} executions, full observation trace compared.", "all 1+2+5+16 of them; write coalescing yield/off (thorough: +1ms, + keep-aliver armed during the other faults)", if thorough { bound } else { bound + 1 }));
     r.assume("write error alone is invisible to a router that has nothing to write: that kind always adds a later request, which must make the router notice");
     r.assume("select!-branch randomness inside the router is audited by trace-equal replays, not owned");
     r.finish();
